@@ -3,7 +3,9 @@ CFG = dict(
     oracle=True,
     reference=True,
     corr='enc_iv/dec of every AEAD scheme (model/AeadFrame.v, EtM.v, GcmSiv.v, Xaes.v, Envelope.v over stdlib oracles) vs tink.AEAD Encrypt (IV from the tape) / Decrypt: whole ciphertext byte-identical, both decrypt each other',
-    coq_targets=['props/C01.vo', 'model/AeadFrame.vo', 'model/Ctr.vo', 'model/EtM.vo', 'model/Polyval.vo', 'model/GcmSiv.vo', 'model/Xaes.vo', 'model/Envelope.vo', 'lib/XBase.vo'],
+    translate=['consts'],
+    gen_lemmas=['proofs/ConstsTieC01.v: AES-GCM IV/tag sizes and the AES-GCM / ChaCha20-Poly1305 plaintext and ciphertext limits regenerated from internal/aead (gen/RepoConsts.v) equal the limits of the model'],
+    coq_targets=['proofs/ConstsTieC01.vo', 'props/C01.vo', 'model/AeadFrame.vo', 'model/Ctr.vo', 'model/EtM.vo', 'model/Polyval.vo', 'model/GcmSiv.vo', 'model/Xaes.vo', 'model/Envelope.vo', 'lib/XBase.vo'],
 )
 MANIFEST = dict(
     text='Theorems in coq/props/C01.v about executable Gallina models of every AEAD key type (framing around the standard AEAD for AES-GCM/ChaCha20-Poly1305/XChaCha20-Poly1305, AES-CTR-HMAC encrypt-then-MAC, AES-GCM-SIV with POLYVAL and the RFC 8452 counter mode, XAES-256-GCM key derivation, KMS envelope framing): for every key, key id, prefix variant, IV of the right length, plaintext and associated data, Decrypt(Encrypt(p, ad), ad) = p; the wire format of each scheme; and the hand-written POLYVAL kernels (mul32/mul64/polyvalDot) equal the RFC 8452 GF(2^128) specification for all field elements (bilinearity by the no-carry argument + the monomial basis). The model is tied to the code by recomputing the whole ciphertext from (key, IV read from the randomness tape, p, ad) and comparing it byte for byte with Tink output; the model decrypts Tink ciphertexts and Tink decrypts ciphertexts produced by the Go standard library alone.',
